@@ -122,7 +122,17 @@ pub fn expect_eq<T: PartialEq + std::fmt::Debug>(fails: &mut Vec<String>, what: 
 pub fn run_cases(cases: &[(&str, fn() -> Vec<String>)]) {
     let prev = std::panic::take_hook();
     std::panic::set_hook(Box::new(|_| {}));
-    for (name, f) in cases {
+    // VERIF_START_AT=<k>: skip the first k cases (the engine restarts a member after a case aborted the process)
+    let start_at: usize = std::env::var("VERIF_START_AT").ok().and_then(|v| v.parse().ok()).unwrap_or(0);
+    for (idx, (name, f)) in cases.iter().enumerate() {
+        if idx < start_at {
+            continue;
+        }
+        {
+            use std::io::Write;
+            println!("START\t{name}\t{idx}");
+            let _ = std::io::stdout().flush();
+        }
         let _ = take();
         match std::panic::catch_unwind(*f) {
             Ok(msgs) if msgs.is_empty() => println!("CASE\t{name}\tok"),
